@@ -206,3 +206,79 @@ def rule_own_fields_forwarded(ctx: Ctx, rep: Report, rule: str, module_prefixes:
                            "handed over" if given else f"reviewed: {why}" if why else
                            f"`{callee.qualname.rsplit('.', 1)[1]}` has a parameter `{pname}` and {ci.name} holds self.{fld}, but the call leaves it out: the callee's default is in force, not the object's own value")
     rep.floor(rule, floor)
+
+
+# (caller, callee's name, parameter) -> why the caller rightly does not hand its same-named parameter on. Read one by one.
+PARAM_NOT_FORWARDED_OK = {
+    ("btclib.b58.wif_from_prv_key", "prv_keyinfo_from_prv_key", "network"): "asked without it on purpose: what the key itself says comes back, and the caller's choice is applied after (comment at the call)",
+    ("btclib.b58.wif_from_prv_key", "prv_keyinfo_from_prv_key", "compressed"): "same call, same reason",
+    ("btclib.descriptors.key_expression._parse_key", "KeyExpression", "x_only"): "x_only selects the parser of the key text; the KeyExpression field of that name is derived by the constructor from the key",
+    ("btclib.ecc.bms.gen_keys", "p2pkh", "network"): "the address is computed from the WIF just built, which carries network and compression",
+    ("btclib.ecc.bms.gen_keys", "p2pkh", "compressed"): "same call, same reason",
+    ("btclib.p2p.handshake.Version.__init__", "NetworkAddress", "services"): "the default address of an unset field; Version.services is the sender's own service bits, not the address's",
+    ("btclib.psbt_signer.SoftwareSigner.sign_ecdsa", "sign_", "pub_key", ): "pub_key names the key to sign *for* (looked up in the signer); dsa.sign_'s optional pub_key is a precomputed public key of the private one",
+    ("btclib.script.engine.verify_input", "verify_script", "precomputed"): "the legacy scriptSig / scriptPubKey / redeem-script runs take no BIP143/341 precomputation: only the witness program does",
+    ("btclib.wallet.key_wallet.KeyWallet.__init__", "add", "script_type"): "add() reads self.script_type, which __init__ has just stored",
+}
+NOT_CONFIG = {"check_validity"}  # when to validate, not what to compute: forwarded or not by each constructor's own design (14 reviewed sites differ)
+
+
+def rule_params_forwarded(ctx: Ctx, rep: Report, rule: str, module_prefixes: tuple[str, ...], floor: int) -> None:
+    """A function that takes a parameter and calls a btclib function (or
+    constructor) with a parameter of the same name hands it on. Across the
+    package that holds at 2 556 of 2 568 call sites (the 12 others are read
+    and listed above); the remaining way to write such a call is to forget the
+    argument -- and then the callee's default (`secp256k1`, `sha256`,
+    `"mainnet"`, `b""`, `None`) silently replaces what the caller was told."""
+    n = 0
+    for q, fi in sorted(ctx.prog.functions.items()):
+        if fi.parent is not None or not any(q.startswith(p_) for p_ in module_prefixes):
+            continue
+        fps = [p_ for p_ in fi.params() if p_ not in ("self", "cls") and p_ not in NOT_CONFIG]
+        if not fps:
+            continue
+        for c in own_nodes(fi.node):
+            if not isinstance(c, ast.Call):
+                continue
+            tq = ctx.resolve_call(fi, c)
+            callee = ctx.prog.functions.get(tq or "")
+            if callee is None:
+                ci = ctx.prog.classes.get(tq or "")
+                if ci is None and norm(c.func) == "cls" and fi.cls is not None:
+                    ci = fi.cls
+                if ci is None:
+                    continue
+                init = ci.methods.get("__init__")
+                if init is None:
+                    ps, kwonly = ci.fields(), set()
+                else:
+                    ps, kwonly = init.params()[1:], {x.arg for x in init.node.args.kwonlyargs}
+                cname = ci.name
+            else:
+                if callee is fi:
+                    continue
+                ps = callee.params()
+                if ps and ps[0] in ("self", "cls"):
+                    ps = ps[1:]
+                kwonly = {x.arg for x in callee.node.args.kwonlyargs}
+                cname = callee.qualname.rsplit(".", 1)[1]
+            if any(isinstance(x, ast.Starred) for x in c.args) or any(k.arg is None for k in c.keywords):
+                continue
+            for p_ in fps:
+                if p_ not in ps:
+                    continue
+                n += 1
+                given = any(k.arg == p_ for k in c.keywords) or (p_ not in kwonly and ps.index(p_) < len(c.args))
+                why = PARAM_NOT_FORWARDED_OK.get((q, cname, p_))
+                if given or why is not None:
+                    if not given:
+                        rep.ob(rule, f"{q}->{cname}({p_})", True, fi.where(c), f"reviewed: {why}")
+                    continue
+                rep.ob(rule, f"{q}->{cname}({p_})@{c.lineno - fi.node.lineno}", False, fi.where(c),
+                       f"`{fi.name}` takes `{p_}` and calls `{cname}`, which has a parameter `{p_}`, without handing it on: the callee's default stands in for the caller's value")
+    # one held obligation per rule run keeps the evidence readable: the count of sites examined
+    if n < floor:
+        from sa.loader import AnalysisError
+        raise AnalysisError(f"{rule}: only {n} call sites with a same-named parameter were found, {floor} expected")
+    rep.ob(rule, "sites_examined", True, "btclib:1", f"{n} call sites with a same-named parameter examined; those not listed as violations forward it (or are reviewed)")
+    rep.floor(rule, 1)
